@@ -295,3 +295,33 @@ Example e2e_refused_nonvacuous :
                  (e2e_sep0 ++ assemble (dmg_stream (skipn 6 e2e_dmg_items))))
               ([], Some EUnknownDescriptor) = true.
 Proof. split; vm_compute; reflexivity. Qed.
+
+(* ---- the stub template decoder (templates of 031031 only) ---------------------- *)
+(* edition 4, two subsets of two descriptors, the second one the undefined 063255 *)
+Definition ex4_json_undef : list (list pvalue) :=
+  [[PBytes sig_BUFR; PUint 0; PUint 4];
+   [PUint 0; PUint 0; PUint 7; PUint 0; PUint 0; PBool false; PBin (zeros 7); PUint 2; PUint 0; PUint 0;
+    PUint 33; PUint 0; PUint 2024; PUint 5; PUint 17; PUint 12; PUint 30; PUint 0];
+   [PUint 0; PBin (zeros 8); PUint 2; PBool true; PBool false; PBin (zeros 6); PDescs [31031; 63255]];
+   [PUint 0; PBin (zeros 8); PData [true; false; true; true]];
+   [PBytes sig_7777]]%Z.
+
+Definition stub_dmg_items : list dmg_item :=
+  [((true, ex_json 0 0 0 0, [66; 85]%N), None);
+   ((true, ex4_json, []), Some (DStop [0; 0; 0; 0]%N));
+   ((true, ex2_json, [10]%N), None);
+   ((true, ex4_json_undef, [66; 85; 70]%N), Some DRefused);
+   ((true, ex4_json, []), Some (DLen4 4));
+   ((true, ex4_json, [13; 10]%N), None)].
+
+Example e2e_stub_nonvacuous :
+  forallb (dmg_okb stub_dd stub_refusesb false) stub_dmg_items = true /\
+  forallb (dmg_okb stub_dd stub_refusesb true) stub_dmg_items = true /\
+  forallb (item_okb stub_dd false) (map fst (filter undamaged stub_dmg_items)) = true /\
+  outcome_eqb (frame_generate stub_dd e2e_view e2e_tdp e2e_filt false true false
+                 (e2e_sep0 ++ assemble (dmg_stream stub_dmg_items)))
+              (map dmg_bytes (filter undamaged stub_dmg_items), None) = true /\
+  outcome_eqb (frame_generate stub_dd e2e_view e2e_tdp e2e_filt false false false
+                 (e2e_sep0 ++ assemble (stream_of (map fst (filter undamaged stub_dmg_items)))))
+              (map item_bytes (map fst (filter undamaged stub_dmg_items)), None) = true.
+Proof. repeat split; vm_compute; reflexivity. Qed.
